@@ -1,6 +1,7 @@
 package main
 
 import (
+	"encoding/json"
 	"flag"
 	"fmt"
 	"os"
@@ -24,6 +25,8 @@ func main() {
 		checkCmd(os.Args[2:])
 	case "sync":
 		syncCmd()
+	case "baseline":
+		baselineCmd()
 	default:
 		fmt.Fprintln(os.Stderr, "unknown command", os.Args[1])
 		os.Exit(2)
@@ -224,5 +227,58 @@ func syncCmd() {
 			os.Exit(1)
 		}
 		fmt.Println("wrote", dst)
+	}
+}
+
+// baselineCmd records, per claimed property, the names of the labelled
+// obligations generated on the current tree (no solving).
+func baselineCmd() {
+	ld, err := loadRepo()
+	if err != nil {
+		fmt.Fprintln(os.Stderr, err)
+		os.Exit(2)
+	}
+	cs, _, err := loadContracts(ld)
+	if err != nil {
+		fmt.Fprintln(os.Stderr, err)
+		os.Exit(2)
+	}
+	props := loadPropInfo()
+	out := map[string][]string{}
+	gen := map[string]*FuncResult{}
+	for prop := range props {
+		var names []string
+		for k, fc := range cs.Funcs {
+			if fc.IsIface || fc.Trusted || fc.Inline || !hasProp(fc.Props, prop) {
+				continue
+			}
+			res, ok := gen[k]
+			if !ok {
+				res = generate(ld, cs, fc)
+				gen[k] = res
+			}
+			for _, o := range res.Obls {
+				if !oblForProp(o, prop) || o.ExpectSat {
+					continue
+				}
+				switch o.Kind {
+				case "post", "panics", "atreturn", "inv-init", "inv-pres", "decreases":
+					names = append(names, o.Name)
+				}
+			}
+		}
+		for _, lm := range cs.Lemmas {
+			if hasProp(lm.Props, prop) {
+				names = append(names, "lemma."+lm.Name)
+			}
+		}
+		sort.Strings(names)
+		out[prop] = names
+	}
+	b, _ := json.MarshalIndent(out, "", " ")
+	os.MkdirAll(filepath.Join(verifDir(), "baseline"), 0o755)
+	os.WriteFile(filepath.Join(verifDir(), "baseline", "obligations.json"), b, 0o644)
+	for _, p := range sortedKeys(out) {
+		fmt.Printf("%s: %d baseline obligations\n", p, len(out[p]))
 	}
 }
